@@ -1,4 +1,5 @@
 """C07 -- size-class transport is conservative and bounded (PopulationBalanceModel transport kernels)."""
+import contextlib, io
 import numpy as np
 from vk.run import Harness
 from kawin.precipitation.PopulationBalance import PopulationBalanceModel as PBM
@@ -18,6 +19,14 @@ def mk_pbm(ctx, n, name="b"):
     return pbm, b0, w
 
 
+def store_other(ctx, pbm, n):
+    """the object's stored distribution is some other non-negative one than the psd argument (an RK4 stage, a trial distribution)"""
+    other = ctx.reals("stored_n", n, (0.0, 5.0))
+    for i in range(n):
+        ctx.assume(other[i] >= 0)
+    pbm.PSD = other
+
+
 def inputs(ctx, n, nuc=True):
     psd = ctx.reals("n", n, (0.0, 5.0))
     g = ctx.reals("g", n + 1, (-1.0, 1.0))
@@ -31,12 +40,14 @@ def inputs(ctx, n, nuc=True):
     return psd, g, nr, rn
 
 
-def conserve(ctx, n=3):
+def conserve(ctx, n=3, stored="same"):
     """sum(dXdt) = nucRate + netFlux[0] - netFlux[n], before and after the step-size correction"""
     pbm, b0, w = mk_pbm(ctx, n)
     psd, g, nuc, rn = inputs(ctx, n)
     dt = ctx.real("dt", (0.05, 1.0)); ctx.assume(dt > 0)
     pbm.PSD = psd
+    if stored == "other":
+        store_other(ctx, pbm, n)
     d = pbm.getdXdtEuler(g, nuc, rn, psd)
     ctx.observe("dxdt", d)
     ctx.prove("sum_before", ctx.eq(sum(d), nuc + pbm._netFlux[0] - pbm._netFlux[n]))
@@ -56,11 +67,13 @@ def ref_faces(ctx, n, psd, g, w):
     return J
 
 
-def upwind(ctx, n=3):
+def upwind(ctx, n=3, stored="same"):
     """every face flux equals the upwind reference; hence exchange is only between adjacent classes"""
     pbm, b0, w = mk_pbm(ctx, n)
     psd, g, nuc, rn = inputs(ctx, n, nuc=False)
     pbm.PSD = psd
+    if stored == "other":
+        store_other(ctx, pbm, n)
     # radius far above the grid: nucleation term goes to one class with rate 0
     d = pbm.getdXdtEuler(g, 0, 0, psd)
     J = ref_faces(ctx, n, psd, g, w)
@@ -98,13 +111,15 @@ def nuc_class(ctx, n=3):
                   ctx.implies(ink, ctx.all([ctx.eq(extra2[i], nuc if i == k else 0.0 * nuc) for i in range(n)])))
 
 
-def face_limit(ctx, n=3):
+def face_limit(ctx, n=3, stored="same"):
     """after correctdXdtEuler(dt) no face removes more than the class holds; faces that were within the limit keep
     their upwind value (the correction only ever limits)"""
     pbm, b0, w = mk_pbm(ctx, n)
     psd, g, nuc, rn = inputs(ctx, n)
     dt = ctx.real("dt", (0.05, 3.0)); ctx.assume(dt > 0)
     pbm.PSD = psd
+    if stored == "other":
+        store_other(ctx, pbm, n)
     pbm.getdXdtEuler(g, nuc, rn, psd)
     J = ref_faces(ctx, n, psd, g, w)
     pbm.correctdXdtEuler(dt, g, nuc, rn, psd)
@@ -120,13 +135,15 @@ def face_limit(ctx, n=3):
                                                        ctx.implies(J[i] <= 0, ctx.all([ctx.le(nf, 0.0 * dt), ctx.le(J[i], nf)]))]))
 
 
-def nonneg(ctx, n=3):
+def nonneg(ctx, n=3, stored="same"):
     """a class whose two faces obey |g| dt <= r dR with r <= 1/2 does not become negative in an Euler update"""
     pbm, b0, w = mk_pbm(ctx, n)
     psd, g, nuc, rn = inputs(ctx, n)
     dt = ctx.real("dt", (0.05, 0.5)); ctx.assume(dt > 0)
     r = ctx.real("r", (0.1, 0.5)); ctx.assume(r > 0); ctx.assume(r <= 0.5)
     pbm.PSD = psd
+    if stored == "other":
+        store_other(ctx, pbm, n)
     d0 = pbm.getdXdtEuler(g, nuc, rn, psd)
     d = pbm.correctdXdtEuler(dt, g, nuc, rn, psd)
     for i in range(n):
@@ -135,10 +152,29 @@ def nonneg(ctx, n=3):
         ctx.prove("class_stays_nonnegative_uncorrected", ctx.implies(obey, ctx.le(0.0 * dt, psd[i] + dt * d0[i])))
 
 
-def dt_limit(ctx, n=3, di=0):
+def dt_limit(ctx, n=3, di=0, via=None):
     """getDTEuler = maxBinRatio * class width / max |g| over faces >= dissolutionIndex of populated classes,
-    and the current dt when there is no such face or all those rates are zero"""
+    and the current dt when there is no such face or all those rates are zero.
+    via="revert": the grid was installed by createBackup(); changeSizeClasses(..); revert();  via="load": by record(); ...;
+    setPSDtoRecordedTime() -- the class width in the limit is that of the grid in force, however it was installed"""
     pbm, b0, w = mk_pbm(ctx, n)
+    if via == "revert":
+        pbm.createBackup()
+        c0 = ctx.real("other_min", (0.3, 1.2)); c1 = ctx.real("other_max", (0.8, 3.0)); ctx.assume(c0 > 0)
+        pbm.changeSizeClasses(c0, c1, n + 1)
+        pbm.revert()
+    elif via == "load":
+        pbm.enableRecording()
+        tr = ctx.real("record_time", (1.0, 2.0)); ctx.assume(tr > 0)
+        pbm.record(tr)
+        c0 = ctx.real("other_min", (0.3, 1.2)); cw = ctx.real("other_w", (0.1, 0.5)); ctx.assume(c0 > 0); ctx.assume(cw > 0)
+        pbm.min = c0; pbm.max = c0 + (n + 1) * cw; pbm.bins = n + 1
+        pbm.reset(False)
+        with contextlib.redirect_stdout(io.StringIO()):
+            pbm.setPSDtoRecordedTime(tr)
+    if via is not None:
+        ctx.prove("grid in force is the first one again", pbm.bins == n and len(pbm.PSDbounds) == n + 1 and
+                  ctx.all([ctx.eq(pbm.PSDbounds[i], b0 + i * w) for i in range(n + 1)]))
     psd, g, nuc, rn = inputs(ctx, n, nuc=False)
     cur = ctx.real("currDT", (0.1, 10.0)); ratio = ctx.real("ratio", (0.1, 0.5))
     ctx.assume(cur > 0); ctx.assume(ratio > 0)
@@ -224,17 +260,21 @@ _A = ["class boundaries b0 + i*w with b0 > 0, w > 0 (the grid PopulationBalanceM
       "n_i >= 0, nucleation rate >= 0, dt > 0; growth field and nucleation radius unconstrained"]
 HARNESSES = [
     Harness("C07.conserve", conserve, functions=_F, assumptions=_A, bounds={"classes": "n"},
-            params={"quick": [{"n": 2}, {"n": 3}], "thorough": [{"n": 3}, {"n": 4, "_shards": 8}]}),
+            params={"quick": [{"n": 2}, {"n": 3}, {"n": 2, "stored": "other"}], "thorough": [{"n": 3}, {"n": 4, "_shards": 8}, {"n": 3, "stored": "other"}]}),
     Harness("C07.upwind", upwind, functions=_F, assumptions=_A, bounds={"classes": "n"},
-            params={"quick": [{"n": 2}, {"n": 3}], "thorough": [{"n": 4}, {"n": 5}]}),
+            params={"quick": [{"n": 2}, {"n": 3}, {"n": 2, "stored": "other"}], "thorough": [{"n": 4}, {"n": 5}, {"n": 4, "stored": "other"}]}),
     Harness("C07.nuc_class", nuc_class, functions=_F, assumptions=_A, bounds={"classes": "n"},
             params={"quick": [{"n": 2}, {"n": 3}], "thorough": [{"n": 3}, {"n": 4, "_shards": 8}]}),
     Harness("C07.face_limit", face_limit, functions=_F, assumptions=_A, bounds={"classes": "n"},
-            params={"quick": [{"n": 2}, {"n": 3, "_shards": 4}], "thorough": [{"n": 3, "_shards": 4}, {"n": 4, "_shards": 16}]}),
+            params={"quick": [{"n": 2}, {"n": 3, "_shards": 4}, {"n": 2, "stored": "other"}],
+                    "thorough": [{"n": 3, "_shards": 4}, {"n": 4, "_shards": 16}, {"n": 3, "stored": "other", "_shards": 4}]}),
     Harness("C07.nonneg", nonneg, functions=_F, assumptions=_A + ["r <= 1/2 is the model's own step limit (maxBinRatio default 0.4)"],
-            bounds={"classes": "n"}, params={"quick": [{"n": 2}, {"n": 3, "_shards": 2}], "thorough": [{"n": 3, "_shards": 2}, {"n": 4, "_shards": 8}]}),
-    Harness("C07.dt_limit", dt_limit, functions=[PBM.getDTEuler], assumptions=_A, bounds={"classes": "n", "dissolutionIndex": "di"},
-            params={"quick": [{"n": 2, "di": 0}, {"n": 3, "di": 1}], "thorough": [{"n": 4, "di": 0}, {"n": 4, "di": 2}, {"n": 3, "di": 3}]}),
+            bounds={"classes": "n"}, params={"quick": [{"n": 2}, {"n": 3, "_shards": 2}, {"n": 2, "stored": "other"}],
+                                           "thorough": [{"n": 3, "_shards": 2}, {"n": 4, "_shards": 8}, {"n": 3, "stored": "other", "_shards": 2}]}),
+    Harness("C07.dt_limit", dt_limit, functions=[PBM.getDTEuler, PBM.createBackup, PBM.changeSizeClasses, PBM.revert, PBM.record, PBM.setPSDtoRecordedTime],
+            assumptions=_A, bounds={"classes": "n", "dissolutionIndex": "di"},
+            params={"quick": [{"n": 2, "di": 0}, {"n": 3, "di": 1}, {"n": 2, "di": 0, "via": "revert"}, {"n": 2, "di": 0, "via": "load"}],
+                    "thorough": [{"n": 4, "di": 0}, {"n": 4, "di": 2}, {"n": 3, "di": 3}, {"n": 3, "di": 1, "via": "revert"}, {"n": 3, "di": 0, "via": "load"}]}),
     Harness("C07.diss_index", diss_index, functions=[PBM.getDissolutionIndex, PBM.CumulativeMoment, PBM.ThirdMoment],
             assumptions=_A, bounds={"classes": "n", "minIndex": "mi"},
             params={"quick": [{"n": 3, "mi": 0}, {"n": 3, "mi": 1}], "thorough": [{"n": 4, "mi": 0}, {"n": 4, "mi": 2}]}),
